@@ -31,6 +31,7 @@ import (
 	"github.com/hashicorp/consul/agent/structs"
 	"github.com/hashicorp/consul/api"
 	"github.com/hashicorp/consul/internal/verifkit"
+	kvm "github.com/hashicorp/consul/internal/verifkvm"
 	vs "github.com/hashicorp/consul/internal/verifstate"
 	memdb "github.com/hashicorp/go-memdb"
 	"pgregory.net/rapid"
@@ -117,18 +118,18 @@ func verifWatchFired(ws memdb.WatchSet) bool {
 	return false
 }
 
-func verifC05Attach(x *verifKVMachine, st *verifC05State) {
-	x.beforeStep = func(x *verifKVMachine, op *vs.Op) {
+func verifC05Attach(x *kvm.Machine, st *verifC05State) {
+	x.BeforeStep = func(x *kvm.Machine, op *vs.Op) {
 		if op.Kind != vs.Txn && op.Kind != vs.TxnRO {
 			return
 		}
-		st.dumpA = vs.TakeDump(x.w.Store)
+		st.dumpA = vs.TakeDump(x.W.Store)
 		st.pubBefore = *st.pub
 		st.gcBefore = verifGCFingerprint(st.gc)
-		st.ws = verifC05WatchPanel(x.w.Store)
+		st.ws = verifC05WatchPanel(x.W.Store)
 	}
-	x.afterStep = func(x *verifKVMachine, op *vs.Op, res vs.Result) {
-		f, c := x.f, x.c
+	x.AfterStep = func(x *kvm.Machine, op *vs.Op, res vs.Result) {
+		f, c := x.F, x.C
 		if op.Kind != vs.Txn && op.Kind != vs.TxnRO {
 			// keep B in step with A
 			rb := vs.Apply(st.b, op)
@@ -137,7 +138,7 @@ func verifC05Attach(x *verifKVMachine, st *verifC05State) {
 			}
 			return
 		}
-		after := vs.TakeDump(x.w.Store)
+		after := vs.TakeDump(x.W.Store)
 		if op.Kind == vs.TxnRO {
 			if diffs := vs.DiffDumps(st.dumpA, after, nil); len(diffs) > 0 {
 				c.Violation(f, "C05/read-only-txn-modified-state/"+diffs[0].Signature(), "read-only txn %s changed state: %s", op.Desc, diffs[0])
@@ -267,14 +268,14 @@ func verifC05VerbName(t *structs.TxnOp) string {
 
 // verifC05Resync: after a tolerated finding the twin cannot be repaired in place; stop comparing (rest of the case
 // still checks aborts, which do not need the twin).
-func verifC05Resync(x *verifKVMachine, st *verifC05State) {
-	x.c.Label("twin-abandoned")
+func verifC05Resync(x *kvm.Machine, st *verifC05State) {
+	x.C.Label("twin-abandoned")
 	st.b = nil
 }
 
 // verifC05CheckStamps: every row that is new or changed after a committed txn carries exactly the txn index.
-func verifC05CheckStamps(x *verifKVMachine, op *vs.Op, before, after vs.Dump) {
-	f, c := x.f, x.c
+func verifC05CheckStamps(x *kvm.Machine, op *vs.Op, before, after vs.Dump) {
+	f, c := x.F, x.C
 	for _, d := range vs.DiffDumps(before, after, func(t string) bool {
 		switch t {
 		case "index", "usage", "free-virtual-ips", "session_checks", "kind-service-names", "tombstones":
@@ -306,18 +307,18 @@ func TestVerifC05Atomic(t *testing.T) {
 		c := rec.NewCase()
 		pre := rapid.IntRange(0, maxPre).Draw(t, "pre")
 		ntx := rapid.IntRange(1, maxTxns).Draw(t, "ntxn")
-		verifC05Run(t, c, func(x *verifKVMachine, i int) *vs.Op {
+		verifC05Run(t, c, func(x *kvm.Machine, i int) *vs.Op {
 			switch {
 			case i < pre:
-				return x.w.DrawOp(t, verifC05Cfg)
+				return x.W.DrawOp(t, verifC05Cfg)
 			case i < pre+2*ntx:
 				if (i-pre)%2 == 1 && rapid.IntRange(0, 2).Draw(t, "between") > 0 {
-					return x.w.DrawOp(t, verifC05Cfg)
+					return x.W.DrawOp(t, verifC05Cfg)
 				}
 				if rapid.IntRange(0, 9).Draw(t, "ro") == 0 {
-					return x.w.DrawTxnRO(t, verifC05Cfg)
+					return x.W.DrawTxnRO(t, verifC05Cfg)
 				}
-				return x.w.DrawTxnPlan(t, verifC05Cfg)
+				return x.W.DrawTxnPlan(t, verifC05Cfg)
 			}
 			return nil
 		})
@@ -325,7 +326,7 @@ func TestVerifC05Atomic(t *testing.T) {
 	})
 }
 
-func verifC05Run(f verifkit.F, c *verifkit.Case, next func(x *verifKVMachine, i int) *vs.Op) {
+func verifC05Run(f verifkit.F, c *verifkit.Case, next func(x *kvm.Machine, i int) *vs.Op) {
 	gc, err := state.NewTombstoneGC(time.Hour, time.Minute)
 	if err != nil {
 		f.Fatalf("gc: %v", err)
@@ -334,10 +335,10 @@ func verifC05Run(f verifkit.F, c *verifkit.Case, next func(x *verifKVMachine, i 
 	pub := &verifC05Pub{}
 	a := state.NewStateStoreWithEventPublisher(gc, pub)
 	st := &verifC05State{pub: pub, gc: gc, b: state.NewStateStore(nil)}
-	x := verifKVNew("C05", f, c, a)
+	x := kvm.New("C05", f, c, a)
 	verifC05Attach(x, st)
-	origAfter := x.afterStep
-	x.afterStep = func(x *verifKVMachine, op *vs.Op, res vs.Result) {
+	origAfter := x.AfterStep
+	x.AfterStep = func(x *kvm.Machine, op *vs.Op, res vs.Result) {
 		if st.b == nil && op.Kind != vs.Txn && op.Kind != vs.TxnRO {
 			return
 		}
@@ -353,7 +354,7 @@ func verifC05Run(f verifkit.F, c *verifkit.Case, next func(x *verifKVMachine, i 
 			break
 		}
 		c.Op(op)
-		x.step(op)
+		x.Step(op)
 	}
 }
 
@@ -386,14 +387,14 @@ func TestVerifC05Replay(t *testing.T) {
 		for name, ops := range verifC05Witnesses() {
 			c := rec.NewCase()
 			c.Label("witness:" + name)
-			verifC05Run(t, c, verifOpsFeeder(ops))
+			verifC05Run(t, c, kvm.OpsFeeder(ops))
 			c.Done()
 		}
 	}
 	for _, path := range verifkit.ReplayFiles("C05") {
 		c := rec.NewCase()
 		c.Label("replay")
-		verifC05Run(t, c, verifOpsFeeder(verifLoadOps(t, path)))
+		verifC05Run(t, c, kvm.OpsFeeder(kvm.LoadOps(t, path)))
 		c.Done()
 	}
 }
@@ -448,9 +449,9 @@ func verifC05MustFail(t *structs.TxnOp) string {
 
 // verifC05CheckEffects: after a COMMITTED transaction every catalog/session write verb that is the last writer of
 // its entity must be visible ("applies all of its operations").
-func verifC05CheckEffects(x *verifKVMachine, op *vs.Op) {
-	f, c := x.f, x.c
-	s := x.w.Store
+func verifC05CheckEffects(x *kvm.Machine, op *vs.Op) {
+	f, c := x.F, x.C
+	s := x.W.Store
 	ops := op.P.Txn
 	nodeWriteAfter := func(i int) bool {
 		for j := i + 1; j < len(ops); j++ {
@@ -518,7 +519,7 @@ func verifC05CheckEffects(x *verifKVMachine, op *vs.Op) {
 			}
 		case t.Service != nil:
 			var found *structs.NodeService
-			for _, sv := range x.w.NodeServices(t.Service.Node, "") {
+			for _, sv := range x.W.NodeServices(t.Service.Node, "") {
 				if sv.ID == t.Service.Service.ID {
 					found = sv
 				}
@@ -537,7 +538,7 @@ func verifC05CheckEffects(x *verifKVMachine, op *vs.Op) {
 			}
 		case t.Check != nil:
 			var found *structs.HealthCheck
-			for _, ck := range x.w.NodeChecks(t.Check.Check.Node, "") {
+			for _, ck := range x.W.NodeChecks(t.Check.Check.Node, "") {
 				if ck.CheckID == t.Check.Check.CheckID {
 					found = ck
 				}
